@@ -36,6 +36,10 @@ CLAIMED = {
     text="Both definitions of SafeUnpickler.find_class are verified from source for every (module, name): a normal return implies membership in an allow-list pinned in the contract, nothing is imported or looked up off the list, everything else raises UnpicklingError; loads() is shown to run load() on the restricted subclass; get_unpickler is secure unless the flag is set; call sites and the default setting are syntactic obligations. The step to 'no byte string reaches a global' is the assumed contract A-PICKLE on CPython, cross-checked by a bounded opcode-route sweep.",
     note="A-PICKLE (CPython's Unpickler routes every global through find_class; bounded sweep of opcode routes x loaded-module attributes, labelled bounded, not counted as proved); strings as opaque atoms with exact literal equality; A-ENGINE, A-SMT",
     tech=TECH + "; pinned allow-list postcondition; bounded stand-in only for the dependency contract A-PICKLE"),
+  'C16': dict(
+    text="RelayRulesRouter.getDestinations (nested loops, ghost source-index witnesses) is verified from source to yield exactly the configured destinations of the matching rules, in file order, up to and including the first matching rule not marked continue; loadRelayRules is verified with an ordered-filter invariant (pattern rules in file order built from their own section, exactly one default rule last, the documented configuration errors otherwise); AggregatedConsistentHashingRouter.getDestinations is verified to return exactly the union of the hash destinations of the aggregate names (or of the metric itself when no rule applies), from which co-location is a lemma.",
+    note="rule.matches / get_aggregate_metric are uninterpreted functions of (rule, key) (regex semantics not modelled); hash_router.getDestinations is an uninterpreted function of the name (C05 determinism); A-CONF for the parser; parseDestinations and regex compilation are opaque functions of the section text; A-ENGINE, A-SMT",
+    tech=TECH + "; nested loop invariants with ghost witnesses, ordered-filter invariant"),
   'C19': dict(
     text="loadStorageSchemas and loadAggregationSchemas are verified from source with an ordered-filter loop invariant: the returned list is exactly the sections, in file order, that have the required keys (built from their own options), followed by the default schema; the writer's create section is verified to pass create() the retentions and (xFilesFactor, method) of the first matching schema in list order; parseRetentionDef is verified against a pinned unit table and the duration/precision formula; Archive truncation and the documented defaults [(60,10080)], (None,None) are obligations.",
     note="A-CONF (OrderedConfigParser semantics; its read() does file I/O and is not under contract); string functions (strip/split/isdigit/int/re.match and groups) and regex matching are uninterpreted (A-STR), so what is proved is how the code combines them; schema.matches in the writer is an uninterpreted predicate; A-ENGINE, A-SMT",
